@@ -61,7 +61,9 @@ def k_exit(n: int, f0: bool, f1: bool, f2: bool, f3: bool) -> str:
 
 AK = ['file', 'dir', 'nonexistent', 'dot', 'non-utf8', 'untrashable', 'duplicate-of-first', 'link', 'dotdot-slash', 'empty-string',
       'unwritable-info-dir']
-MODES = [([], []), (['-f'], []), (['-i'], ['y', 'n', 'y', 'n']), (['-v'], []), (['-i'], ['n', 'n', 'n', 'n']), (['-f', '-v'], [])]
+MODES = [([], []), (['-f'], []), (['-i'], ['y', 'n', 'y', 'n']), (['-v'], []), (['-i'], ['n', 'n', 'n', 'n']), (['-f', '-v'], []),
+         (['--trash-dir', '/v/td'], [])]  # one volume-independent trash dir for arguments that live on three volumes
+NMODE = len(MODES)
 BADNAME = 'bad\udcff'
 
 
@@ -211,23 +213,23 @@ def third_full():
 def w_lists(n: int, k0: int, k1: int, k2: int, mode: int) -> str:
     """
     pre: PARTITION is None or k0 == PARTITION[0]
-    pre: 1 <= n <= 3 and 0 <= k0 < 11 and 0 <= k1 < 11 and 0 <= k2 < (11 if third_full() else 6) and 0 <= mode < 6
+    pre: 1 <= n <= 3 and 0 <= k0 < 11 and 0 <= k1 < 11 and 0 <= k2 < (11 if third_full() else 6) and 0 <= mode < NMODE
     post: _ == ''
     """
     nn = rt.sel(n, 4)
     # (selectors of positions the list does not have are not branched on)
     b = rt.sel(k1, 11) if nn >= 2 else 0
     c = (rt.sel(k2, 11) if third_full() else rt.of([0, 2, 4, 6, 9, 10], k2)) if nn >= 3 else 0
-    return _case(nn, rt.sel(k0, 11), b, c, 0, rt.sel(mode, 6))
+    return _case(nn, rt.sel(k0, 11), b, c, 0, rt.sel(mode, NMODE))
 
 
 def w_lists4(k0: int, k1: int, k2: int, k3: int, mode: int) -> str:
     """
     pre: PARTITION is None or k0 == PARTITION
-    pre: 0 <= k0 < 11 and 0 <= k1 < 11 and 0 <= k2 < 11 and 0 <= k3 < 6 and 0 <= mode < 6
+    pre: 0 <= k0 < 11 and 0 <= k1 < 11 and 0 <= k2 < 11 and 0 <= k3 < 6 and 0 <= mode < NMODE
     post: _ == ''
     """
-    return _case(4, rt.sel(k0, 11), rt.sel(k1, 11), rt.sel(k2, 11), rt.of([0, 2, 4, 6, 9, 10], k3), rt.sel(mode, 6))
+    return _case(4, rt.sel(k0, 11), rt.sel(k1, 11), rt.sel(k2, 11), rt.of([0, 2, 4, 6, 9, 10], k3), rt.sel(mode, NMODE))
 
 
 def obligations(tier):
@@ -236,9 +238,9 @@ def obligations(tier):
            encodes=['Context.trash_each', 'TrashPutReporter.exit_code', 'TrashAllResult.any_failure'],
            stubs=['SingleTrasher -> symbolic results'], bounds='0..4 arguments, every failure pattern'),
         CH('W_argument_lists_up_to_3', MOD, 'w_lists', timeout=2400, partitions=[(k, tier == 'thorough') for k in range(11)], engine='W', regime='selector',
-           encodes=K.PUT_FUNCS, stubs=K.STUBS, bounds='lists of 1..3 arguments x 11 argument kinds per position (third position: %s) x 6 option sets' % ('11 kinds' if tier == 'thorough' else '6 kinds: 0 2 4 6 9 10')),
+           encodes=K.PUT_FUNCS, stubs=K.STUBS, bounds='lists of 1..3 arguments x 11 argument kinds per position (third position: %s) x 7 option sets' % ('11 kinds' if tier == 'thorough' else '6 kinds: 0 2 4 6 9 10')),
     ]
     if tier == 'thorough':
         obs.append(CH('W_argument_lists_of_4', MOD, 'w_lists4', timeout=7000, partitions=list(range(11)), twin=False, engine='W',
-                      regime='selector', encodes=K.PUT_FUNCS, stubs=K.STUBS, bounds='lists of 4 arguments: 11 kinds for the first three positions, 6 for the fourth, x 6 option sets'))
+                      regime='selector', encodes=K.PUT_FUNCS, stubs=K.STUBS, bounds='lists of 4 arguments: 11 kinds for the first three positions, 6 for the fourth, x 7 option sets'))
     return obs
